@@ -255,6 +255,10 @@ func (o op) src() []string {
 			return []string{fmt.Sprintf("(= %s %d)", p, o.z)}
 		case "set":
 			return []string{fmt.Sprintf("(set %s %d)", p, o.z)}
+		case "infixdef":
+			return []string{fmt.Sprintf("{%s := %d}", p, o.z)}
+		case "prefixdef":
+			return []string{fmt.Sprintf("(:= %s %d)", p, o.z)}
 		}
 	case 'c':
 		s := "(" + p
@@ -686,7 +690,7 @@ func sysWorld(depth int, lean bool) *world {
 }
 
 var getRoutes = []string{"rhsdef", "rhsinfix", "let", "plus", "type"}
-var setRoutes = []string{"infix", "prefix", "set"}
+var setRoutes = []string{"infix", "prefix", "set", "infixdef", "prefixdef"}
 var fromRoutes = []string{"from-infix", "from-set", "from-prefix", "from-infixdef"}
 
 type target struct {
@@ -860,16 +864,29 @@ func routes(out *lib.Out, rng *lib.Rng, depth int, all bool) {
 			p := withRoot(root, t.path)
 			tag := []string{"routes", "kind:" + string(t.kind), "root:" + strings.Join(root, ".")}
 			var args []int64
+			mutates := false
 			if t.kind == 'F' {
-				if t.fn.body.kind != 'G' && t.fn.body.kind != 'D' {
-					args = nil // setters are called without their argument: arity error on both sides
-				} else {
-					for range t.fn.params {
-						args = append(args, 7)
-					}
+				for range t.fn.params {
+					args = append(args, 7)
 				}
+				mutates = t.fn.body.kind != 'G' && t.fn.body.kind != 'D'
 			} else if k%3 == 0 {
 				args = []int64{5}
+			}
+			if mutates {
+				// setters / clearers / facades: the call goes through the route on a fresh interpreter and the
+				// effect is read back from inside and outside
+				if ri == 0 || all {
+					pkgPath := p[:len(p)-1]
+					for _, r := range []string{"callx", "ind"} {
+						ops := []op{{kind: 'r', route: r, path: p, args: args},
+							{kind: 'c', route: "call", path: append(append([]string{}, pkgPath...), "GetLo")},
+							{kind: 'c', route: "call", path: append(append([]string{}, pkgPath...), "getUp")},
+							{kind: 'g', route: "let", path: append(append([]string{}, pkgPath...), "Vi")}}
+						runCase(out, w, nil, ops, append(tag, "route:"+r+"-setter")...)
+					}
+				}
+				args = nil // on the shared interpreter: arity error on both sides, or skipped when there is no parameter
 			}
 			ops := []op{
 				{kind: 'r', route: "deref", path: p},
@@ -885,7 +902,10 @@ func routes(out *lib.Out, rng *lib.Rng, depth int, all bool) {
 				ops = append(ops, op{kind: 'r', route: "hget", path: p[:cut], src2: p[cut:]})
 			}
 			for _, o := range ops {
-				runCase(out, w, env, []op{o}, append(tag, "route:"+o.route)...)
+				if mutates && len(t.fn.params) == 0 && (o.route == "callx" || o.route == "ind") {
+					continue
+				}
+				runCase(out, w, env, []op{o}, tag...)
 			}
 		}
 	}
